@@ -126,6 +126,8 @@ type world struct {
 	gstRounds map[int]uint64
 	gstPassed bool
 	fatal   string
+	scripted bool // schedule comes from a TLC-generated script, not from the event queue
+	skipped  int  // script steps whose precondition the real run did not meet
 }
 
 type host struct {
@@ -140,6 +142,7 @@ type host struct {
 	started   map[uint64]bool
 	done      bool
 	crashed   bool
+	clk       time.Time // own clock, scripted mode only (participants never share a clock in reality either)
 }
 
 func (h *host) GetProposal(ctx context.Context, i uint64) (*gpbft.SupplementalData, *gpbft.ECChain, error) {
@@ -194,12 +197,20 @@ func (h *host) RequestBroadcast(mb *gpbft.MessageBuilder) error {
 	return nil
 }
 func (h *host) RequestRebroadcast(i gpbft.Instant) error {
+	if h.w.scripted {
+		return nil
+	}
 	if m, ok := h.sentBy[i]; ok {
 		h.w.broadcast(h.id, m, false)
 	}
 	return nil
 }
-func (h *host) Time() time.Time { return h.w.now }
+func (h *host) Time() time.Time {
+	if h.w.scripted {
+		return h.clk
+	}
+	return h.w.now
+}
 func (h *host) SetAlarm(at time.Time) {
 	if at.IsZero() {
 		h.alarm = nil
@@ -266,6 +277,9 @@ func (w *world) deliverAt() (time.Time, bool) {
 }
 
 func (w *world) broadcast(from int, m *gpbft.GMessage, byz bool) {
+	if w.scripted {
+		return
+	}
 	for _, id := range w.honest {
 		at, ok := w.deliverAt()
 		if !ok {
